@@ -49,6 +49,9 @@ func (f *Isqrt) Call(s *slip.Scope, args slip.List, depth int) (result slip.Obje
 		// A float64 can not represent all fixnums so use the exact integer square root.
 		result = slip.Fixnum(new(big.Int).Sqrt(big.NewInt(int64(ta))).Int64())
 	case *slip.Bignum:
+		if (*big.Int)(ta).Sign() < 0 {
+			slip.ArithmeticPanic(s, depth, f, args, "only non-negative values are allowed")
+		}
 		// Sqrt sets its receiver so use a new big.Int to leave the argument unchanged.
 		result = (*slip.Bignum)(new(big.Int).Sqrt((*big.Int)(ta)))
 	case *slip.LongFloat:
